@@ -27,7 +27,7 @@ theorem bfX_zero {env : Env} {lhs : Node} (h : bfOK env lhs = true) : bfX env (b
   unfold bfX
   split <;> simp_all [xOf]
 
-theorem Sem_isAllocaCall (lhs : Node) : Sem (isAllocaCall lhs) 0 0 0 := by
+theorem Sem_isAllocaCall {K : List Line → Int → Int → Prop} [CodePred K] (lhs : Node) : SemP K (isAllocaCall lhs) 0 0 0 := by
   unfold isAllocaCall
   sem
 
